@@ -57,7 +57,16 @@ func mutSpec(depth int) *mc.Spec {
 }
 
 func runWorker(r *evid.Run, job string) {
-	debug.SetGCPercent(1000)
+	// The immutable DFS allocates one 1 KiB iterator per node and keeps almost nothing alive: with
+	// the default GC pacing a collection is in progress most of the time (write barriers on every
+	// iterator copy). Measured: 1000 is 2-3x faster than 100, larger values lose to cache misses.
+	if os.Getenv("GOGC") == "" {
+		if strings.HasPrefix(job, "imm:") {
+			debug.SetGCPercent(1000)
+		} else {
+			debug.SetGCPercent(200)
+		}
+	}
 	measureOverhead()
 	f := strings.Split(job, ":")
 	seed, _ := strconv.ParseInt(f[1], 10, 64)
@@ -99,7 +108,7 @@ func runWorker(r *evid.Run, job string) {
 				if _, dup := run.fails[x[0]]; !dup {
 					run.fails[x[0]] = &immFail{Clause: x[0], What: x[1], Ops: append([]string{}, run.ops...), Pos: append([]int64{}, run.opPos...)}
 				}
-				if x[0] == "priority-stream" || strings.HasPrefix(x[0], "new-version|contents|") {
+				if x[0] == "priority-stream" || strings.HasPrefix(x[0], "new-version|contents|") || strings.HasPrefix(x[0], "old-version|") {
 					diverged = true
 				}
 			}
@@ -110,10 +119,13 @@ func runWorker(r *evid.Run, job string) {
 		if !diverged {
 			run.dfs()
 		}
-		out.States, out.Transitions, out.Executions, out.Reads = int64(len(run.stacks)), run.nodes, run.nodes, run.reads
+		out.States, out.Transitions, out.Executions, out.Reads = run.distinct, run.nodes, run.nodes, run.reads
 		out.DepthDone, out.Samples = depth, run.samples
 		if run.capped {
 			out.Exhaustive, out.Cap = false, "time budget reached"
+		}
+		if run.broken {
+			out.Exhaustive, out.Cap = false, "a retained version was damaged: shard stopped after reporting it"
 		}
 		var cl []string
 		for c := range run.fails {
@@ -177,12 +189,17 @@ func main() {
 		r.Finish(evid.Coverage{})
 	}
 
+	// Bounds. Mutable (BFS with merging): depth 7 / 9 for every seed of {1,2,3} / {1,2,3,4}.
+	// Immutable (every one of the 12^d sequences is executed, nothing merged): quick = depth 7
+	// with seed 1 and depth 6 with seeds 2,3; thorough = depth 8 with seeds 1..4.
 	depth := r.Pick(7, 9)
-	immDepth := r.Pick(7, 8)
 	seeds := []int64{1, 2, 3}
+	immDepths := map[int64]int{1: 7, 2: 6, 3: 6}
 	if r.Thorough() {
 		seeds = []int64{1, 2, 3, 4}
+		immDepths = map[int64]int{1: 8, 2: 8, 3: 8, 4: 8}
 	}
+	immDepth := immDepths[1]
 	var jobs []string
 	for _, s := range seeds {
 		jobs = append(jobs, fmt.Sprintf("mut:%d:%d", s, depth))
@@ -190,16 +207,17 @@ func main() {
 	for _, s := range seeds {
 		for _, a := range allOps {
 			for _, b := range allOps {
-				jobs = append(jobs, fmt.Sprintf("imm:%d:%d:%s,%s", s, immDepth, a, b))
+				jobs = append(jobs, fmt.Sprintf("imm:%d:%d:%s,%s", s, immDepths[s], a, b))
 			}
 		}
 	}
 	scratch := evid.Scratch("c19")
 	defer os.RemoveAll(scratch)
 	t0 := time.Now()
-	results := par.Procs(jobs, scratch, par.Opts{Timeout: 3 * time.Hour, MemMB: 4096})
+	results := par.Procs(jobs, scratch, par.Opts{Timeout: 3 * time.Hour, MemMB: 4096, Env: []string{"GOMAXPROCS=1"}})
 	os.RemoveAll(scratch)
 
+	var all []evid.Violation
 	var mutS, mutT, mutX, immS, immT, immReads int64
 	exhaustive := true
 	capNote := ""
@@ -213,7 +231,7 @@ func main() {
 			evid.Fatalf("worker %s: %v", res.Job, err)
 		}
 		for _, v := range o.Violations {
-			r.MergeViolation(v)
+			all = append(all, v)
 		}
 		if !o.Exhaustive {
 			exhaustive = false
@@ -236,6 +254,29 @@ func main() {
 		}
 	}
 	_ = t0
+	// one artefact per signature: the shortest history (ties: first in job order); counts add up
+	best := map[string]int{}
+	hlen := func(v evid.Violation) int {
+		b, _ := json.Marshal(v.Artefact)
+		var a artefact
+		json.Unmarshal(b, &a)
+		return len(a.History)
+	}
+	for i, v := range all {
+		if j, ok := best[v.Signature]; !ok || hlen(v) < hlen(all[j]) {
+			best[v.Signature] = i
+		}
+	}
+	for i, v := range all {
+		if best[v.Signature] == i {
+			r.MergeViolation(v)
+		}
+	}
+	for i, v := range all {
+		if best[v.Signature] != i {
+			r.MergeViolation(v)
+		}
+	}
 	cov := evid.Coverage{
 		"states":                        mutS + immS,
 		"transitions":                   mutT + immT,
@@ -247,6 +288,7 @@ func main() {
 		"immutable_old_version_rereads": immReads,
 		"max_depth_completed":           map[string]int{"mutable": depth, "immutable": immDepth},
 		"priority_seeds":                seeds,
+		"immutable_depth_per_seed":      fmt.Sprint(immDepths),
 		"exhaustive":                    exhaustive,
 		"cap":                           capNote,
 		"samples":                       samples,
